@@ -252,6 +252,15 @@ func (d *DInt) InitDefaults() {
 	d.B = "dflt"
 }
 
+// IA2 is a fixed-size array type with defaults of its own.
+type IA2 [2]int
+
+// InitDefaults sets the defaults.
+func (a *IA2) InitDefaults() {
+	cb.hit("InitDefaults", "IA2", nil, false)
+	a[0], a[1] = 71, 72
+}
+
 // PI is a primitive type with a default of its own and a Validate method.
 type PI int
 
@@ -361,12 +370,13 @@ const (
 	KPA2
 	KMA2
 	KUPrim
+	KIA2
 	kindCount
 )
 
 var kindNames = [...]string{"int", "int8", "uint16", "float64", "string", "bool", "duration", "*int", "*string", "VInt", "VStr",
 	"UStr", "UInt", "UBool", "UFloat", "UAny", "UCfg", "[]int", "[]string", "[]VInt", "[2]int", "map[string]int", "map[string]interface{}",
-	"interface{}", "*Config", "DInt", "Inner", "*Inner", "struct", "*struct", "[]struct", "map[string]struct", "inline-struct", "float32", "map[string][]int", "map[string]VInt", "PI", "*[]int", "*duration", "UUint", "[]UStr", "[]UCfg", "[]map[string]int", "*regexp", "[2]struct", "[][]VInt", "map[string][]VInt", "uint64", "*UStr", "map[string]UCfg", "URefl", "UVal", "URe", "interface{}(*Inner)", "*[2]int", "map[string][2]int", "UPrim"}
+	"interface{}", "*Config", "DInt", "Inner", "*Inner", "struct", "*struct", "[]struct", "map[string]struct", "inline-struct", "float32", "map[string][]int", "map[string]VInt", "PI", "*[]int", "*duration", "UUint", "[]UStr", "[]UCfg", "[]map[string]int", "*regexp", "[2]struct", "[][]VInt", "map[string][]VInt", "uint64", "*UStr", "map[string]UCfg", "URefl", "UVal", "URe", "interface{}(*Inner)", "*[2]int", "map[string][2]int", "UPrim", "IA2"}
 
 func (k Kind) String() string { return kindNames[k] }
 
@@ -383,7 +393,7 @@ var leafTypes = map[Kind]reflect.Type{
 	KUUint: reflect.TypeOf(UUint{}), KSUStr: reflect.TypeOf([]UStr(nil)), KSUCfg: reflect.TypeOf([]UCfg(nil)),
 	KSMap: reflect.TypeOf([]map[string]int(nil)), KRegex: tRegex,
 	KUVal: reflect.TypeOf(UVal{}), KURe: reflect.TypeOf(URe{}), KIfPInner: tIface,
-	KPA2: reflect.TypeOf((*[2]int)(nil)), KMA2: reflect.TypeOf(map[string][2]int(nil)), KUPrim: reflect.TypeOf(UPrim(0)),
+	KPA2: reflect.TypeOf((*[2]int)(nil)), KMA2: reflect.TypeOf(map[string][2]int(nil)), KUPrim: reflect.TypeOf(UPrim(0)), KIA2: reflect.TypeOf(IA2{}),
 	KPUStr: reflect.TypeOf((*UStr)(nil)), KMUCfg: reflect.TypeOf(map[string]UCfg(nil)), KURefl: reflect.TypeOf(URefl{}),
 	KSSVInt: reflect.TypeOf([][]VInt(nil)), KMSVInt: reflect.TypeOf(map[string][]VInt(nil)), KU64: reflect.TypeOf(uint64(0)),
 	KMVInt: reflect.TypeOf(map[string]VInt(nil)), KPI: reflect.TypeOf(PI(0)), KPSInt: reflect.TypeOf((*[]int)(nil)),
